@@ -610,6 +610,27 @@ func c03Gen(tier string, rng *rand.Rand, emit func(Case)) {
 	for _, c := range largeResponses(rng) {
 		emit(Case{Line: fmt.Sprintf("use %d 0 final %s r", rng.Intn(2), strings.Join(c, " ")), Kind: "large-package"})
 	}
+	// a response whose end-of-message packet ends in a package that never completes (cut short, or a token
+	// the library does not know), read, then further responses in small packets: nothing of the broken
+	// response — bytes, read position, end-of-message state — leaks into the next ones
+	for i := 0; i < n/4; i++ {
+		var toks []string
+		body := append(respBytes(c03Response(rng)), truncatedTail(rng)...)
+		toks = append(toks, cutTokens(body, randomCuts(rng, len(body), rng.Intn(3)))...)
+		toks = append(toks, "r")
+		for j := 0; j < 1+rng.Intn(2); j++ {
+			next := respBytes(c03Response(rng))
+			if len(next) < 3 {
+				next = append(next, rDone(0, 1).bytes...)
+			}
+			first := 1 + rng.Intn(6)
+			if first >= len(next) {
+				first = len(next) - 1
+			}
+			toks = append(append(toks, cutTokens(next, []int{first})...), "r")
+		}
+		emit(Case{Line: fmt.Sprintf("use %d 0 %s %s", rng.Intn(2), []string{"final", "nil", "final,nil"}[rng.Intn(3)], strings.Join(toks, " ")), Kind: "broken-response-then-next"})
+	}
 	fullSpecs := []string{"nil", "final", "final", "fail1", "fail2", "fail3", "fail5", "fail9", "weof1", "weof2", "ueof1", "ueof3"}
 	for i := 0; i < n; i++ {
 		k := 1 + rng.Intn(4)
